@@ -603,8 +603,13 @@ class Path:
 HARNESS_ERRORS = (UncontrolledRandomness, ReplayDivergence, PathLimit)
 
 
+BEGIN_HOOKS = []  # callables run at the start of every execution (e.g. reset the step horizon)
+
+
 def run_once(fn, prefix=()):
     """Run fn() under the scripted chooser with the forced prefix; returns a Path."""
+    for h in BEGIN_HOOKS:
+        h()
     CH.begin(prefix)
     res = exc = None
     try:
